@@ -353,6 +353,16 @@ section pres
 variable {P : Params} {act : Bool} {I : S → Prop} (hp : Pres P act I)
 include hp
 
+theorem connectMany_pres (s : S) (a : Nat) (bs : List Nat) (h : I s) : I (connectMany P s a bs).1 := by
+  induction bs generalizing s with
+  | nil => exact h
+  | cons b bs ih =>
+    unfold connectMany
+    have h1 := hp.connect s a b h
+    split
+    · rename_i s' heq; rw [heq] at h1; exact ih s' h1
+    · rename_i s' e heq; rw [heq] at h1; exact h1
+
 theorem fetch1_pres (fuel : Nat) (s : S) (i : Nat) (h : I s) : I (fetch1 P fuel s i).1 := by
   unfold fetch1; split
   · exact hp.vals _ _ _ _ h
@@ -746,6 +756,7 @@ theorem step_pres (fuel : Nat) (s : S) (op : Op) (hop : act = true ∨ op.noActi
   | fetchAll n => simp only [step, wrap_fst]; exact fetchAll_pres hp fuel s _ h
   | link a b => simp only [step, wrap_fst]; exact link_pres hp fuel s a b h
   | connect a b => simp only [step, wrap_fst]; exact hp.connect _ _ _ h
+  | connectMany a bs => simp only [step, wrap_fst]; exact connectMany_pres hp s a bs h
   | disconnect a b => exact hp.disconnect _ _ _ h
   | copyValues fh pin pout => simp only [step, wrap_fst]; exact copyValues_pres hp fuel fh s pin pout h
   | run n kw => exact runAny_pres hp fuel fuel s n kw h
